@@ -7,6 +7,13 @@ package threshold
 // ---- object invariants -------------------------------------------------------------------------------------
 
 //@ type Scheme
+//@   field dkgRunning guarded_by lock
+//@   field syncsInProgress, rbcInProgress, messageClassifiers immutable_after setup
+//@   field syncsInProgress[], rbcInProgress[], messageClassifiers[] guarded_by lock
+//@   field RBF, SyncFactory immutable_after setup
+//@   field Threshold, SelfID, Membership, Send, SignerFactory, KeyGenFactory, Logger config
+//@   // set by the application between sessions (after KeyGen returned, before Sign): not one of the concurrent activities
+//@   field StoredData immutable_after SetStoredData
 //@   invariant [logger] this.Logger != nil
 //@   invariant [config] this.Send != nil && this.Membership != nil && this.RBF != nil && this.SyncFactory != nil &&
 //@                      this.SignerFactory != nil && this.KeyGenFactory != nil
@@ -74,16 +81,24 @@ package threshold
 // ---- reliable broadcast glue (C02, C03) --------------------------------------------------------------------------
 
 //@ type rbcFilter
+//@   field h, allowedList, warn config
+//@   field allowedList[] config
 //@   invariant [config] this.h != nil && this.warn != nil
 //@
 //@ type threadSafeRBC
+//@   field h config
 //@   invariant [config] this.h != nil
 //@
 //@ type receiver
 //@   invariant [config] this.Receiver != nil
 //@
 //@ type threadSafeSync
+//@   field Synchronizer config
 //@   invariant [config] this.Synchronizer != nil
+
+//@ type membership
+//@   field universalIdentifiers, uID2PID, pID2UID immutable_after computeMembership
+//@   field uID2PID[], pID2UID[] immutable_after computeMembership
 //@
 //@ type embeddedBoxWithScheme
 //@   invariant [config] this.Box != nil && this.Scheme != nil
